@@ -30,6 +30,7 @@ template <class Locks> static void lock_program(const Program& P, Locks& L) {
   std::function<void()> pre = [&] { doop(Op{"begin", {}}); };
   std::function<void()> post = [&] { doop(Op{"finish", {}}); };
   pre(); run_threads(P, doop, pre, post); }
+static const bool s_post_store = (vs::g_post_store_points = true);   // see vsched.h
 DRV_VARIANT(v_spin, "spin_lock") { PlainLocks<cds::sync::spin_lock<bk>> L; lock_program(P, L); }
 DRV_VARIANT(v_rspin32, "reentrant_spin32") { PlainLocks<cds::sync::reentrant_spin_lock<uint32_t, bk>> L; lock_program(P, L); }
 DRV_VARIANT(v_rspin64, "reentrant_spin64") { PlainLocks<cds::sync::reentrant_spin_lock<uint64_t, bk>> L; lock_program(P, L); }
